@@ -22,6 +22,11 @@
 (*   "amp-not-ambiguous-reported"        '&' + letters without ';' records expected-named-entity      *)
 (*   "caption-implicit-end-reported"     a table-structure start tag that implies </caption> records  *)
 (*                                       an error even when the caption is the current node           *)
+(* ThmCallingConvention: a call is determined by WHAT is passed, not how: the container as keyword or positional      *)
+(* argument, its name in any letter case (element names are ASCII case-insensitive; Lifecycle.tla LowerName), the      *)
+(* default scripting=False spelled out, the text as str / text file object / UTF-8 bytes with the encoding stated all   *)
+(* denote the same call; `convEq` says that outcome and error list equal those of the plain keyword call, and every     *)
+(* clause below is judged on the call as it was spelled (so a conforming fragment must be error-free however spelled).  *)
 (* Verdicts: accept | finding (with the set f of deviation names used) | crash (the NON-strict parse  *)
 (* raised: totality is C03's) | reject:<clause>.                                                      *)
 EXTENDS Lifecycle, TLC, Json, IOUtils
@@ -57,7 +62,8 @@ Judge(tr) ==
         fCap == IF tr.conf.is /\ tr.conf.cap > 0 THEN {"caption-implicit-end-reported"} ELSE {}
         used == fKey \cup fPos \cup fAmp \cup fCap
     IN
-    IF tr.ns.out # "ok" THEN [v |-> "crash", f |-> {}]
+    IF ~tr.convEq THEN [v |-> "reject:calling-convention", f |-> {}]
+    ELSE IF tr.ns.out # "ok" THEN [v |-> "crash", f |-> {}]
     ELSE IF tr.st.out # StrictOutcome(errs) THEN
          [v |-> IF ~StrictClass(tr.st.out) THEN "reject:exception-class" ELSE "reject:strict-iff", f |-> {}]
     ELSE IF tr.st.out = "ParseError" /\ ~(tr.st.same /\ tr.st.msg) THEN [v |-> "reject:first-error", f |-> {}]
